@@ -145,7 +145,7 @@ def read_cgsmiles(pattern):
             # the recipe for making the branch includes the anchor;
             # which is hence the first residue in the list
             # at this point the bond order is still 1 unless we have an expansion
-            recipes[branch_anchor[-1]] = [(1, attributes, 1)]
+            recipes[branch_anchor[-1]] = [(1, dict(mol_graph.nodes[prev_node]), 1)]
 
         # here we check if the atom is followed by a cycle marker
         # in this case we have an open cycle and close it
